@@ -956,6 +956,12 @@ fn main() {
                     if matches!(on, Real::Err(CreateModuleError::ParseError { .. }) | Real::Err(CreateModuleError::ValidationError { .. })) {
                         problems.push("naga accepts the source but the generator reports a parse/validation error".into());
                     }
+                    // the only errors a source naga accepts may come back with are the two numbering errors
+                    for (name, res) in [("off", &off), ("on", &on)] {
+                        if real_class(res) == "err-other" {
+                            problems.push(format!("{name}: naga accepts the source but the generator returns an error that is neither of the numbering errors"));
+                        }
+                    }
                     for res in [&off, &on] {
                         if let Real::Err(e) = res {
                             check_emit(e, &csrc, None, &mut problems, &mut emit_panics, &mut notes);
